@@ -2,6 +2,7 @@ from __future__ import annotations
 
 import ast
 import enum
+import re
 import sys
 from collections.abc import Callable
 from typing import TYPE_CHECKING, Any, ClassVar, Literal, NoReturn, TypeVar, cast
@@ -575,7 +576,22 @@ class Parser:
         path_tok = self._strip_path_prefix(a)
         if path_tok:
             self._path_token = path_tok
+        if "r" not in a.string.lower():
+            self._decode_fstring_parts(b)
         return ast.JoinedStr(values=b, **locs)
+
+    def _decode_fstring_parts(self, parts: list[ast.FormattedValue | ast.Constant]) -> None:
+        """Literal text of a non-raw f-string (format specs included) holds backslash escapes like any string literal."""
+        for part in parts:
+            if isinstance(part, ast.Constant):
+                if "\\" in part.value:
+                    # write the text as a string literal: quote the double quotes, complete a backslash left before '{'
+                    text = re.sub(r'\\.|"', lambda m: m.group(0) if len(m.group(0)) > 1 else '\\"', part.value, flags=re.DOTALL)
+                    if re.fullmatch(r"(?:[^\\]|\\.)*\\", text, flags=re.DOTALL):
+                        text += "\\"
+                    part.value = ast.literal_eval(f'"""{text}"""')
+            elif isinstance(part.format_spec, ast.JoinedStr):
+                self._decode_fstring_parts(part.format_spec.values)
 
     @staticmethod
     def _strip_path_prefix(token: TokenInfo | ast.expr) -> TokenInfo | None:
